@@ -169,47 +169,57 @@ def set_aside_names(fn, par):
 
 
 def unshadowed_read_names(fn):
-    """Names with a Load occurrence in the own block of `fn` (comprehensions included, nested def / lambda / class
-    or generator-expression bodies not) that is not lexically hidden by an iteration target of an enclosing
-    comprehension: for these, 'comprehension targets aside' does not apply — the occurrence refers to the function's
-    (or an outer) variable.  (Names that are targets of a comprehension ENCLOSING `fn` are taken out by the caller.)"""
-    out = set()
+    """Names for which 'comprehension targets aside' does not apply in `fn`: the own block of `fn` (comprehensions
+    included; nested def / lambda / class and generator-expression bodies are blocks of their own) has a Load
+    occurrence of the name that no enclosing comprehension target hides, and every comprehension of the block that
+    has the name as a target lies INSIDE the comprehension containing that occurrence (or the occurrence is outside
+    all comprehensions).  Then the occurrence refers to the function's (or an outer) variable, also under CPython
+    3.12's inlining of list/set/dict comprehensions (where a *sibling* comprehension's target would capture it).
+    (Names that are targets of a comprehension ENCLOSING `fn` are taken out by the caller.)"""
+    occ, binders = [], []
 
-    def visit(node, hidden):
+    def visit(node, hidden, chain):
         if isinstance(node, (ast.FunctionDef, ast.AsyncFunctionDef)):
             for d in node.decorator_list + node.args.defaults + [k for k in node.args.kw_defaults if k is not None]:
-                visit(d, hidden)
+                visit(d, hidden, chain)
             return
         if isinstance(node, ast.Lambda):
             for d in node.args.defaults + [k for k in node.args.kw_defaults if k is not None]:
-                visit(d, hidden)
+                visit(d, hidden, chain)
             return
         if isinstance(node, ast.ClassDef):
             for d in node.decorator_list + node.bases + [k.value for k in node.keywords]:
-                visit(d, hidden)
+                visit(d, hidden, chain)
             return
         if isinstance(node, ast.GeneratorExp):
-            # a block of its own (also in CPython 3.12, which inlines the other three kinds): only its first iterable
-            # is evaluated in the enclosing block
-            visit(node.generators[0].iter, hidden)
+            visit(node.generators[0].iter, hidden, chain)
             return
         if isinstance(node, COMP_NODES):
-            inner = hidden | comp_target_names(node)
+            tg = comp_target_names(node)
+            inner, ch = hidden | tg, chain + (id(node),)
+            binders.append((tg, ch))
             for k, g in enumerate(node.generators):
-                visit(g.iter, hidden if k == 0 else inner)
+                if k == 0:
+                    visit(g.iter, hidden, chain)
+                else:
+                    visit(g.iter, inner, ch)
                 for c in g.ifs:
-                    visit(c, inner)
+                    visit(c, inner, ch)
             for f in ('elt', 'key', 'value'):
                 if hasattr(node, f):
-                    visit(getattr(node, f), inner)
+                    visit(getattr(node, f), inner, ch)
             return
         if isinstance(node, ast.Name) and isinstance(node.ctx, ast.Load) and node.id not in hidden:
-            out.add(node.id)
+            occ.append((node.id, chain))
         for c in ast.iter_child_nodes(node):
-            visit(c, hidden)
+            visit(c, hidden, chain)
     body = fn.body if isinstance(fn.body, list) else [fn.body]
     for b in body:
-        visit(b, frozenset())
+        visit(b, frozenset(), ())
+    out = set()
+    for name, chain in occ:
+        if all(name not in tg or (len(ch) > len(chain) and ch[:len(chain)] == chain) for tg, ch in binders):
+            out.add(name)
     return out
 
 
